@@ -360,17 +360,21 @@ fn id_coeffs(p: &IdPt) -> Vec<C> {
     v
 }
 fn xs(complex: bool) -> Vec<C> {
-    (0..24)
+    // 24 points of the disc |x| <= 2 (the real segment for the real field); the last three are the special values
+    // 0, 1 and -1 (an evaluation shortcut for such an argument would otherwise never be exercised)
+    let mut v: Vec<C> = (0..21)
         .map(|j| {
             if complex {
                 let r = 2.0 * ((j % 4) as f64 + 1.0) / 4.0;
                 let th = 0.4 + j as f64 * 1.1;
                 C::new(r * th.cos(), r * th.sin())
             } else {
-                C::new(-2.0 + 4.0 * j as f64 / 23.0, 0.0)
+                C::new(-2.0 + 4.0 * j as f64 / 20.3, 0.0)
             }
         })
-        .collect()
+        .collect();
+    v.extend([C::new(0.0, 0.0), C::new(1.0, 0.0), C::new(-1.0, 0.0)]);
+    v
 }
 fn id_point<N: Fld>(p: &IdPt) -> Outcome {
     let mut o = Outcome::new();
